@@ -216,7 +216,9 @@ def impl(requests, profile='debug', stall_s=6):
 def audit(prop, theorems):
     """`#print axioms` of every listed theorem + source grep. Returns (obligations, discharged, problems)"""
     problems = []
-    src = ['import Rrss.Thm.%s' % prop] + ['#print axioms %s' % t for t in theorems]
+    import glob
+    mods = sorted(os.path.basename(f)[:-5] for f in glob.glob(os.path.join(LEAN, 'Rrss', 'Thm', prop + '*.lean')))
+    src = ['import Rrss.Thm.%s' % m for m in mods] + ['#print axioms %s' % t for t in theorems]
     os.makedirs(WORK, exist_ok=True)
     path = os.path.join(WORK, 'Audit_%s.lean' % prop)
     with open(path, 'w') as f:
@@ -304,7 +306,19 @@ def case_hash(*parts):
     return h.hexdigest()[:16]
 
 
+def clip(obj, n=4000):
+    """keep replay / evidence files readable: clip very long strings (the full text is regenerated from the seed)"""
+    if isinstance(obj, str):
+        return obj if len(obj) <= n else obj[:n] + '…[%d more chars]' % (len(obj) - n)
+    if isinstance(obj, dict):
+        return {k: clip(v, n) for k, v in obj.items()}
+    if isinstance(obj, (list, tuple)):
+        return [clip(v, n) for v in obj]
+    return obj
+
+
 def write_json(path, obj):
+    obj = clip(obj)
     os.makedirs(os.path.dirname(path), exist_ok=True)
     tmp = path + '.tmp'
     with open(tmp, 'w') as f:
